@@ -19,6 +19,7 @@ func init() {
 		"Int64":     zzInt64,
 		"Str":       zzStr,
 		"StrIn":     zzStrIn,
+		"StrNo":     zzStrNo,
 		"Choose":    zzChoose,
 		"Assume":    zzAssume,
 		"Assert":    zzAssert,
@@ -119,6 +120,10 @@ func zzStrIn(fr *frame, args []value) value {
 		c = mkAnd(c, &Term{Op: "<=", Args: []*Term{mkStrLen(v), mkIntC(int64(maxLen))}, Sort: sortBool})
 	}
 	ps.assume(symBool{c}, "alphabet of "+name)
+	if ps.alpha == nil {
+		ps.alpha = map[string]string{}
+	}
+	ps.alpha[v.Name] = class
 	return ps.resolveValue(symStr{v})
 }
 
@@ -236,4 +241,63 @@ func zzConcrete(fr *frame, args []value) value {
 		return !isSym(fr.i.ps.resolveValue(args[0]))
 	}
 	return !isSym(args[0])
+}
+
+// classHas reports whether the bracket-expression body class admits byte c.
+func classHas(class string, c byte) bool {
+	rs := []byte(class)
+	for i := 0; i < len(rs); i++ {
+		if i+2 < len(rs) && rs[i+1] == '-' {
+			if rs[i] <= c && c <= rs[i+2] {
+				return true
+			}
+			i += 2
+			continue
+		}
+		if rs[i] == c {
+			return true
+		}
+	}
+	return false
+}
+
+// partExcludes reports whether string part p (a constant or an input atom)
+// is known not to contain byte c.
+func (ps *pathState) partExcludes(p *Term, c byte) bool {
+	if p.isConst() {
+		for k := 0; k < len(p.S); k++ {
+			if p.S[k] == c {
+				return false
+			}
+		}
+		return true
+	}
+	if p.Op == "var" {
+		if class, ok := ps.alpha[p.Name]; ok {
+			if strings.HasPrefix(class, "^") {
+				return strings.IndexByte(class[1:], c) >= 0
+			}
+			return !classHas(class, c)
+		}
+	}
+	return false
+}
+
+// zzStrNo returns an arbitrary string that contains none of the bytes of
+// args[1]. Cheaper for the solver than a character-class restriction.
+func zzStrNo(fr *frame, args []value) value {
+	ps := needPath(fr)
+	name := concreteString(fr, args[0], "input name")
+	excl := concreteString(fr, args[1], "excluded characters")
+	v := ps.newInput(name, sortStr, "str")
+	var cs []*Term
+	for k := 0; k < len(excl); k++ {
+		cs = append(cs, mkNot(mkStrPred("str.contains", v, mkStr(excl[k:k+1]))))
+	}
+	ps.assume(symBool{mkAnd(cs...)}, "excluded characters of "+name)
+	if ps.alpha == nil {
+		ps.alpha = map[string]string{}
+	}
+	ps.alpha[v.Name] = "^" + excl
+	return ps.resolveValue(symStr{v})
 }
